@@ -315,3 +315,14 @@ def run(facts, rep, ctx):
     from . import round5
     round5.tb4b(facts, rep)
     round5.co1(facts, rep)
+
+
+_run_before_round6 = run
+
+
+def run(facts, rep, ctx):
+    """rules added after the fifth seeding round (rules/round6.py)"""
+    _run_before_round6(facts, rep, ctx)
+    from . import round6
+    round6.mm1(facts, rep)
+    round6.tb4c(facts, rep)
